@@ -20,7 +20,7 @@ def seeds():
         if os.path.exists(sp):
             summ = open(sp).read().strip().replace("\n", " ")
         det = ", ".join(f"{x['check']} ({x['violation_lines']} lines)" if x.get("exit") == 1 else f"{x['check']}: not detected"
-                        for x in m.get("detected_by", []) if isinstance(x, dict)) or "—"
+                        for x in m.get("detected_by", []) if isinstance(x, dict) and (x.get("exit") == 1 or x.get("check") == m["property"])) or "—"
         print(f"| {m['seed_id']} | {m['property']} | {summ} | {'yes' if m.get('confirmed') else 'NO'} | {det} |")
 
 
